@@ -16,6 +16,12 @@
 
 package val
 
+import (
+	"context"
+
+	"github.com/dolthub/dolt/go/store/hash"
+)
+
 // Verification vocabulary (ghost code, compiled only with -tags verif).
 
 func verif_old[T any](x T) T { return x }
@@ -24,6 +30,11 @@ func verif_old[T any](x T) T { return x }
 func verif_loopold[T any](x T) T { return x }
 
 func verif_res[T any](i int) T { var z T; return z }
+
+// verif_sameslice(a, b): a and b are the same window of the same backing array (contracts only).
+func verif_sameslice[T any](a, b []T) bool {
+	return len(a) == len(b) && (len(a) == 0 || &a[0] == &b[0])
+}
 
 func verif_implies(a, b bool) bool { return !a || b }
 
@@ -121,4 +132,14 @@ func verif_wf_tuple(tup Tuple) bool {
 		verif_forall(0, verif_tup_count(tup), func(i int) bool {
 			return verif_tup_start(tup, i) <= verif_tup_stop(tup, i) && int(verif_tup_stop(tup, i)) <= verif_tup_split(tup)
 		})
+}
+
+// ---- ghost state (C16)
+
+var verif_ghost struct {
+	aHash hash.Hash // address returned by the most recent ValueStore.WriteBytes
+}
+
+func verif_x_vs_WriteBytes(vs ValueStore, ctx context.Context, val []byte) (h hash.Hash, err error) {
+	return vs.WriteBytes(ctx, val)
 }
